@@ -247,7 +247,7 @@ PROPERTIES.update({
         ] + [bs_heap("find,rfind,count", i, 12, (200, 448)) for i in range(12)] + [
             vg(ss("e", FWD + "," + REV + ",twoway,rk,rtwoway,rrk,pp-sse2,pp-avx2", MEMORY, "ss/E2/heap", ["--letters", "ab", "--places", "heap", "--aligns", "0"], q=["--nmax", "3", "--hmax", "9"], t=["--nmax", "4", "--hmax", "11"])),
             vg(ss("epad", FWD + ",pp-sse2,pp-avx2,pf-sse2,pf-avx2", MEMORY, "ss/E2pad/heap", ["--places", "heap"], q=["--nmax", "2", "--hmax", "3"], t=["--nmax", "3", "--hmax", "5"])),
-            vg(ss("ln", FWD + "," + REV + ",twoway,rtwoway", MEMORY, "ss/LN/heap", ["--places", "heap", "--lengths", "33,40", "--maxu", "2", "--pieces", "1", "--pad", "8"])),
+            vg(ss("ln", FWD + "," + REV + ",twoway,rtwoway", MEMORY, "ss/LN/heap", ["--places", "heap", "--lengths", "33", "--maxu", "1", "--pieces", "1", "--pad", "4"])),
         ],
     },
     "C14": {
@@ -582,6 +582,47 @@ PROPERTIES["C06"]["jobs"] += [
     {"name": "it[k3]/bytes (dispatcher fallback)", "build": V("it", "k3"), "classes": RESULT, "args": ["bytes", "--tier", "{tier}", "--kinds", "top1,top2,top3", "--l1", "9", "--l23", "5"]},
 ]
 PROPERTIES["C06"]["explanation"] += " Repeated for the emulated NEON and simd128 iterators and for the top-level iterators under the dispatcher's fallback outcome."
+
+
+
+# ---- additions after the second round of independently seeded changes
+PROPERTIES["C07"]["jobs"] += [
+    bs("long", "count", RESULT, name="bs/long/count (accumulator-overflow sizes)"),
+    {"name": "bs[k3]/long/count", "build": V("bs", "k3"), "classes": RESULT, "args": ["long", "--tier", "{tier}", "--ops", "count", "--subjects", "swar,top"]},
+]
+PROPERTIES["C07"]["explanation"] += " Long haystacks (V*{255,256,257}+d for V in 8..128; thorough also V*65536) with a match every p bytes at every phase exercise the sizes at which a narrow per-lane accumulator would wrap."
+PROPERTIES["C01"]["jobs"] += [bs("long", "find", RESULT, name="bs/long/find", tiers=("thorough",))]
+PROPERTIES["C02"]["jobs"] += [bs("long", "rfind", RESULT, name="bs/long/rfind", tiers=("thorough",))]
+PROPERTIES["C05"]["jobs"] += [
+    ss("e", "memmem,finder,rk,rrk,rmemmem,rfinder,twoway", MEMORY, "ss/RK/guard (hash collisions at the last window)", ["--letters", "rk", "--places", GUARD], q=["--nmax", "4", "--hmax", "9"], t=["--nmax", "5", "--hmax", "10"]),
+    ss("e", "memmem,finder,rk,rrk,rmemmem,rfinder", MEMORY, "ss/C64/guard", ["--letters", "c64", "--places", GUARD], q=["--nmax", "3", "--hmax", "8"], t=["--nmax", "4", "--hmax", "10"]),
+]
+PROPERTIES["C17"]["jobs"] += [
+    ss("ln", ranked(["default", "identity", "zero", "needle-common", "perm1", "wo:01"], kinds=("ranked",)), ["alloc"], "ss/LN/ranked finders"),
+    ss("epad", ranked(["identity", "zero", "wo:01", "wo:10"], kinds=("ranked",)), ["alloc"], "ss/E2pad/ranked finders", q=["--nmax", "3", "--hmax", "6"], t=["--nmax", "4", "--hmax", "9"]),
+]
+PROPERTIES["C17"]["explanation"] += " Finders built with build_forward_with_ranker (the harness' rankers are constructed without allocating) are inside the probe too."
+
+
+
+def nl(build, subjects, classes, name, letters="ab"):
+    return {"name": name, "build": build, "classes": classes, "args": ["nl", "--tier", "{tier}", "--subjects", subjects, "--letters", letters]}
+
+
+PROPERTIES["C12"]["jobs"] += [
+    nl(B("ss"), "twoway,rtwoway,rk,rrk", RESULT, "ss/NL2/blocks"),
+    nl(B("ss"), "twoway,rtwoway", RESULT, "ss/NL3/blocks", "abc"),
+]
+PROPERTIES["C12"]["explanation"] += " NL: every binary needle of 8..=13 (16) and ternary needle of 6..=8 (10) letters - long enough for every shape of the maximal/minimal-suffix computation - against haystacks derived from the needle (behind short letter runs, behind its own proper suffixes, in front of its own proper prefixes, tripled, and the same with the first/last byte changed)."
+PROPERTIES["C03"]["jobs"] += [
+    nl(V("ss", "k3"), "finder,finder-nopre,memmem", RESULT, "ss[k3]/NL2/fwd"),
+    nl(V("ss", "k3"), "finder,finder-nopre", RESULT, "ss[k3]/NL3/fwd", "abc"),
+    nl(B("ss"), "finder,memmem,iter-first", RESULT, "ss/NL2/fwd"),
+]
+PROPERTIES["C04"]["jobs"] += [
+    nl(B("ss"), "rfinder,rmemmem,riter-first", RESULT, "ss/NL2/rev"),
+    nl(B("ss"), "rfinder", RESULT, "ss/NL3/rev", "abc"),
+]
 
 HOOK_COMMITS = ["ffdf165", "556bbde", "0f24165", "8fa21ee"]
 
